@@ -20,7 +20,12 @@ only *rename* locals and parameters across the files the rules read (13 rules lo
 argument of a call, the field of a struct literal, the parameter position). In a **second round** twenty fresh sub-agents wrote two more
 refactorings each (`Cxx-4`, `Cxx-5`: 40 patches, on average larger than the first sixty - several restructure a whole function or move a
 table into its own `Display` impl), and four more probes of mine (`X00-4` .. `X00-7`) rename and move *functions* and fields the rules are
-anchored on. The %d patches are kept in `probes/<id>/` and are negative controls (`R-<id>`) of the self-test.
+anchored on. In a **third round** twenty more sub-agents wrote two refactorings each (`Cxx-6`, `Cxx-7`) of kinds the first two rounds
+had not asked for: an *API / data-flow* clean-up (a private struct or enum introduced for what was passed as several parameters, a free
+function turned into a method, a changed private signature, one function split into named steps, a `const` hoisted) and a *control-flow*
+normalisation (guard clauses, inverted conditions, De Morgan, a match on a tuple, `find` / `any` / `fold` / `try_fold` for loops, slice
+patterns, `let .. else`, explicit matches for `?`). The %d patches are kept in `probes/<id>/` and are negative controls (`R-<id>`) of the
+self-test.
 
 **First runs: 28 of the first 30 refactorings, 12 of the next 15 (C10, C11, C14, C17, C20) and 12 of the last 15 (C12, C15, C16, C18, C19) made at
 least one check fail** (almost all as template mismatches or fail-closed analysis gaps). That
@@ -91,11 +96,36 @@ the first sixty. What was removed this time (again only causes that are generic,
 * **Spelling that cannot matter is erased before comparing**: closure parameter names (numbered by position), a two-way choice on a negated
   condition, named / positional / literal format arguments, struct-pattern bindings vs field access.
 
+**Third round, first run: 32 of the 40 new refactorings made at least one check fail.** Removed this time (same discipline):
+
+* **Values that leave early.** `if c { return A } B` is `if c { A } else { B }` for every template and table: formula templates (C01),
+  printer tables read from the recorded writes rather than from the shape of the value (`printers.arm_writes`, C06 / C09 / C14 / C15), the
+  parenthesisation conditions (`prec.eval_cond`), decisions specialised on literals (`comp.decide_literals`); a `continue` / `break` guard
+  is a fact of every later exit of the same iteration (it used to be dropped from `return`s).
+* **Printers as text, further.** A type that got its own `Display` impl after the rules were written is a helper of the printer that
+  writes it (its writes happen at the `{}`); text built with `format!` and written through a `{}`, a literal kept in a new `const`, a
+  conditional argument, `Some(x)?`, `Result::map` on a literal are folded. Name + sort suffix (C06 / C09), numerals, the rule separator and
+  the literal pieces of the list printers (C14, path by path) are decided on that text.
+* **Aggregates introduced by a refactoring are seen through.** A struct literal handed to a later-extracted helper (`ProofDirection { name:
+  "forward", lemmas: self.proof_outline.forward_lemmas, .. }.outline_problems(..)`) is replaced by its fields inside the helper's copy, so
+  the chain, sequencing and name rules of C02 / C09 / C10 / C13 read the same code as before; builder chains continue through the helper's
+  return; a result struct is read by the role its fields play at the use site (C07 / C17: which field is substituted, which builds the
+  replacement); a match on a tuple is seen through each component (`hq.matches_over`); slice patterns bind by position; a function value
+  called by name is the call.
+* **Decisions on concrete inputs instead of reference terms**, again: `tau_star_rule` (head predicate present / absent x arity 0, 1, 3),
+  `Individuals::next` (a present / an exhausted guard), the chooser's search loop (truth table of its exit condition over the two
+  membership tests), the ensure checks that involve no loop (decision tables), restrict_quantifier_domain (facts at the two call sites),
+  pest-error propagation (the parse call answering `Err(e)`).
+* **Anchors by role.** The operator argument of the val constructors by type, the side locals of strong equivalence by what feeds them,
+  `transition_axioms` as a method or an associated function of the two programs, `natural` through the public trait entry, panic sites that
+  moved into a new function of the same module directory.
+
 After these changes **%d of the %d probes are silent on all 20 checks**; the other %d still fail at least one check although the property
-holds. They are listed below as *known fail-closed cases*: restructurings that need algebraic knowledge the extractors do not have
-(`!a.is_subset(b)` for `a.difference(b).next().is_some()`, `collect::<Option<Vec<_>>>()` for "no element is None", the map `entry` API
-for `or_default`, a `find` over a filtered iterator for a loop with an early `return Err`), or a whole template function split into several
-helpers at once (completion).
+holds. They are listed below as *known fail-closed cases*: restructurings that need algebraic or inductive knowledge the extractors do not have
+(`iter().any(|p| !input.contains(p))` for `difference(..).next().is_some()`, `find(|p| !seen.insert(p))` for a contains-then-insert loop, a
+`while taken { redraw }` search with a mutated candidate, a `for` loop that returns early from inside the collection it builds, a
+recursion over the quantifier prefix rewritten as peel-loop + fold), a verdict flag moved into a helper that returns it, option flags
+copied into a new struct whose methods read them, or a whole function (`completion`, `Files::sort`) rebuilt around a new type.
 A failing check on such an edit reports an `ANALYSIS-GAP` or a template mismatch naming the function; it is the one known way these
 checks can fail on code where the property still holds, and the reason is in the report.
 
